@@ -385,6 +385,8 @@ val spline_spec : arith -> table -> t list -> nat list -> t
 
 val absK : arith -> t -> t
 
+val dBabs : arith -> (z -> t) -> bool -> nat -> nat -> z -> t -> t
+
 val tensor_abs :
   arith -> (z -> t) -> dimn list -> t list -> nat list -> z -> t -> t
 
